@@ -46,3 +46,35 @@ fn c17_source_statement_lookup() {
     kani::cover!(idx >= 0 && idx as usize >= n);
     core::mem::forget(src);
 }
+
+/// `assembly <address>` in minimal mode prints exactly the bytes of the statement's span, also when multi-byte
+/// characters precede the statement in the source (spans are byte offsets)
+#[kani::proof]
+#[kani::unwind(12)]
+#[kani::stub(alloc::fmt::format, crate::verif_h::stubs::fmt_format)]
+#[kani::stub(crate::output::Output::print_fmt, print_fmt_capture_all)]
+fn c17_show_single_line_multibyte() {
+    const SRC: &str = "\u{e9}\u{1F600} ab cd"; // 2-byte + 4-byte character, then "ab" at bytes 7..9, "cd" at 10..12
+    let second: bool = kani::any();
+    let ast = vec![
+        AsmLine::new(1, AirStmt::Return, span_of(7, 2)),
+        AsmLine::new(2, AirStmt::Return, span_of(10, 2)),
+    ];
+    let orig: u16 = kani::any();
+    kani::assume(orig < 0xFFFE);
+    let src = AsmSource::from(orig, ast, SRC);
+    crate::output::Output::set_minimal(true);
+    src.show_single_line(if second { orig + 1 } else { orig });
+    use crate::verif_h::capture;
+    assert!(capture::len() == 2, "assembly shows more or less than the statement's text");
+    let want: [u32; 2] = if second { ['c' as u32, 'd' as u32] } else { ['a' as u32, 'b' as u32] };
+    assert!(capture::at(0) == want[0] && capture::at(1) == want[1], "assembly shows text that is not the statement's");
+    kani::cover!(second);
+    core::mem::forget(src);
+}
+
+/// print stub that captures both channels (the debugger's `assembly` output is the subject here)
+fn print_fmt_capture_all(_this: &crate::output::Output, args: core::fmt::Arguments) {
+    use core::fmt::Write as _;
+    let _ = crate::verif_h::capture::Sink.write_fmt(args);
+}
